@@ -476,8 +476,12 @@ class PointCloud(Geometry3D):
         # copy vertex and face data
         copied._data.data = copy.deepcopy(self._data.data)
 
-        # copy visual data
-        copied.visual = copy.deepcopy(self.visual)
+        # copy visual data: a deep copy of the visual object would
+        # also copy the point cloud it refers back to
+        colors = np.array(self.visual.vertex_colors, copy=True)
+        copied.visual = VertexColor(
+            colors=colors if len(colors) > 0 else None, obj=copied
+        )
 
         # get metadata
         copied.metadata = copy.deepcopy(self.metadata)
